@@ -49,9 +49,16 @@ Chosen == (IF N = 0 \/ N >= Cardinality(Literals) THEN Literals ELSE RandomSubse
 
 Out == LET seq == SetToSeq({t \in Chosen : IsJsonNumber(t)}) IN [k \in 1..Len(seq) |-> [id |-> k, lit |-> seq[k]]]
 
+\* every text over the scanner alphabet up to VERIF_TEXTLEN code points (for tonumber / query literals)
+Alphabet == {Minus, PlusC, Dot, 48, 49, 57, LowE, UpE, 97}
+RECURSIVE Texts(_)
+Texts(n) == IF n = 0 THEN {<<>>} ELSE LET T == Texts(n - 1) IN T \cup {Append(t, c) : t \in {u \in T : Len(u) = n - 1}, c \in Alphabet}
+TextLen == atoi(IOEnv.VERIF_TEXTLEN)
+TextOut == LET seq == SetToSeq(Texts(TextLen) \ {<<>>}) IN [k \in 1..Len(seq) |-> [id |-> k, t |-> seq[k]]]
+
 \* the generator is sound: nothing was filtered out
 VARIABLE done
 Init == /\ Len(Out) = Cardinality(Chosen)
-        /\ done = ndJsonSerialize(IOEnv.VERIF_OUT, Out)
+        /\ done = (ndJsonSerialize(IOEnv.VERIF_OUT, Out) /\ ndJsonSerialize(IOEnv.VERIF_OUT2, TextOut))
 Next == UNCHANGED done
 =============================================================================
